@@ -4,6 +4,7 @@ package main
 
 // Shared helpers of the message-level families (msg and its descendants).
 //
+//	msgDynTypes()              resolver with dynamicpb extension types (for reflection-path flavours)
 //	msgAllTypes()              every linked message type (sorted by name; no map entries, nothing that
 //	                           reaches a MessageSet message)
 //	msgRandomSchemas(c, n)     n random valid FileDescriptorProtos -> root message descriptors (dynamicpb)
@@ -21,6 +22,7 @@ package main
 //	msgF1Class(md, b)          recogniser of known finding F1
 //	msgHasLazy(md)             some reachable field is declared [lazy=true]
 //	msgFB1Class(md, b)         recogniser of finding FB1 (legacy message fields)
+//	msgFB3Class(md, b)         recogniser of finding FB3 (ConsumeGroup budget on the reflection path)
 //	msgLegacyReach(md), msgDepthExact(mt)   types whose table-driven decoder is not the modelled one
 
 import (
@@ -185,6 +187,23 @@ func msgExtensionsOf(md protoreflect.MessageDescriptor) []protoreflect.Extension
 	sort.Slice(xs, func(i, j int) bool { return xs[i].Number() < xs[j].Number() })
 	msgExtCache[md.FullName()] = xs
 	return xs
+}
+
+var msgDynTypesCache *protoregistry.Types
+
+// msgDynTypes is a resolver with a dynamicpb extension type for every linked extension; the
+// reflection-path flavours use it so that their messages contain no generated messages.
+func msgDynTypes() *protoregistry.Types {
+	if msgDynTypesCache != nil {
+		return msgDynTypesCache
+	}
+	t := new(protoregistry.Types)
+	protoregistry.GlobalTypes.RangeExtensions(func(xt protoreflect.ExtensionType) bool {
+		t.RegisterExtension(dynamicpb.NewExtensionType(xt.TypeDescriptor().Descriptor()))
+		return true
+	})
+	msgDynTypesCache = t
+	return t
 }
 
 func msgIsLazyField(fd protoreflect.FieldDescriptor) bool {
@@ -358,6 +377,42 @@ func msgFB1Class(md protoreflect.MessageDescriptor, b []byte) bool {
 				return true
 			}
 		}
+	}
+	return false
+}
+
+// msgFB3Class recognises the input class of finding FB3: some known group-typed field (reachable
+// through known message fields) whose protowire.ConsumeGroup scan -- the first thing the
+// reflection path does with it -- exceeds the scanner's recursion budget.
+func msgFB3Class(md protoreflect.MessageDescriptor, b []byte) bool {
+	for len(b) > 0 {
+		num, typ, n := protowire.ConsumeTag(b)
+		if n < 0 || num > protowire.MaxValidNumber {
+			return false
+		}
+		b = b[n:]
+		fd := msgFindField(md, num)
+		if fd != nil && typ == protowire.StartGroupType && fd.Kind() == protoreflect.GroupKind {
+			content, m := protowire.ConsumeGroup(num, b)
+			if m < 0 {
+				return m == -6 // errCodeRecursionDepth
+			}
+			if msgFB3Class(fd.Message(), content) {
+				return true
+			}
+			b = b[m:]
+			continue
+		}
+		m := protowire.ConsumeFieldValue(num, typ, b)
+		if m < 0 {
+			return false
+		}
+		if fd != nil && typ == protowire.BytesType && fd.Message() != nil {
+			if p, k := protowire.ConsumeBytes(b[:m]); k >= 0 && msgFB3Class(fd.Message(), p) {
+				return true
+			}
+		}
+		b = b[m:]
 	}
 	return false
 }
@@ -769,11 +824,22 @@ func msgRandomFillOpts(c *Ctx, m protoreflect.Message, depth int, o msgFillOpts)
 		}
 		msgFillField(c, m, fds.Get(i), depth, o)
 	}
+	_, isDyn := m.(*dynamicpb.Message)
 	for _, xd := range msgExtensionsOf(md) {
 		if c.Intn(p+1) != 0 {
 			continue
 		}
-		msgFillField(c, m, xd, depth, o)
+		var xfd protoreflect.FieldDescriptor = xd
+		if isDyn {
+			// keep dynamicpb messages purely dynamic: a generated extension type would make
+			// message-typed extension values generated messages (decoded by the table-driven path)
+			xt, err := msgDynTypes().FindExtensionByNumber(md.FullName(), xd.Number())
+			if err != nil {
+				continue
+			}
+			xfd = xt.TypeDescriptor()
+		}
+		msgFillField(c, m, xfd, depth, o)
 	}
 	if o.unknown && c.Intn(4) == 0 {
 		m.SetUnknown(msgGenUnknown(c, md))
@@ -931,6 +997,25 @@ func msgSplitFields(b []byte) ([]msgChunk, bool) {
 		b = b[m:]
 	}
 	return out, true
+}
+
+// msgSplitPrefix splits the longest well-formed prefix of b into fields.
+func msgSplitPrefix(b []byte) []msgChunk {
+	var out []msgChunk
+	for len(b) > 0 {
+		num, typ, n := protowire.ConsumeTag(b)
+		if n < 0 || num > protowire.MaxValidNumber {
+			break
+		}
+		b = b[n:]
+		m := protowire.ConsumeFieldValue(num, typ, b)
+		if m < 0 {
+			break
+		}
+		out = append(out, msgChunk{num, typ, b[:m]})
+		b = b[m:]
+	}
+	return out
 }
 
 func msgPackedElemType(fd protoreflect.FieldDescriptor) (protowire.Type, bool) {
